@@ -12,9 +12,36 @@ use serde_json::json;
 pub fn qlit(v: f32) -> String {
     kvh::coqfmt::f64_q(v as f64)
 }
+/// (mantissa, exponent) with v = mantissa * 2^exponent, mantissa odd or zero
+fn decompose(v: f32) -> (i128, i32) {
+    assert!(v.is_finite());
+    if v == 0.0 {
+        return (0, 0);
+    }
+    let bits = v.to_bits();
+    let sign = if (bits >> 31) != 0 { -1i128 } else { 1i128 };
+    let exp = ((bits >> 23) & 0xff) as i32;
+    let frac = (bits & 0x7f_ffff) as i128;
+    let (mut m, mut e) = if exp == 0 { (frac, -149) } else { (frac | (1 << 23), exp - 150) };
+    while m % 2 == 0 {
+        m /= 2;
+        e += 1;
+    }
+    (sign * m, e)
+}
+/// Gallina literal of a vector of f32 as exact rationals.  Compact form `vz E [ints]`
+/// (value ints_i / 2^E, `vz` is defined in HEADER) because coqc elaborates a Z numeral about
+/// twice as fast as a `(a # b)` literal; falls back to per-component literals for wide ranges.
 pub fn vec_lit(v: &[f32]) -> String {
-    let p: Vec<String> = v.iter().map(|x| qlit(*x)).collect();
-    format!("[{}]", p.join("; "))
+    let d: Vec<(i128, i32)> = v.iter().map(|x| decompose(*x)).collect();
+    let emin = d.iter().filter(|p| p.0 != 0).map(|p| p.1).min().unwrap_or(0).min(0);
+    let emax = d.iter().filter(|p| p.0 != 0).map(|p| p.1).max().unwrap_or(0);
+    if emax - emin > 60 || -emin > 200 {
+        let p: Vec<String> = v.iter().map(|x| qlit(*x)).collect();
+        return format!("[{}]", p.join("; "));
+    }
+    let ints: Vec<String> = d.iter().map(|(m, e)| (m << ((e - emin) as u32)).to_string()).collect();
+    format!("(vz {} [{}]%Z)", -emin, ints.join("; "))
 }
 pub fn results_lit(rs: &[(u64, f32)]) -> String {
     let p: Vec<String> = rs.iter().map(|(i, d)| format!("({}%N, {})", i, qlit(*d))).collect();
@@ -36,7 +63,7 @@ pub fn metric_of(m: u8) -> kyrodb_engine::config::DistanceMetric {
     }
 }
 
-pub const HEADER: &str = "From Coq Require Import QArith List NArith ZArith Bool Arith.\nFrom Kyro Require Import Model.QCache.\nImport ListNotations.\nOpen Scope Q_scope.\n";
+pub const HEADER: &str = "From Coq Require Import QArith List NArith ZArith Bool Arith.\nFrom Kyro Require Import Model.QCache.\nImport ListNotations.\nOpen Scope Q_scope.\nDefinition vz (e : nat) (l : list Z) : vec := map (fun m => Qmake m (Pos.shiftl_nat 1 e)) l.\n";
 
 fn main() {
     let args: Vec<String> = std::env::args().collect();
